@@ -5,6 +5,7 @@
 package vmc
 
 import (
+	"runtime"
 	"crypto/sha256"
 	"encoding/hex"
 	"encoding/json"
@@ -55,6 +56,9 @@ type Result struct {
 	deadline    time.Time
 	maxSamples  int
 	vio         map[string]*Violation
+	memBudget   uint64 // bytes of heap this process may use (VERIF_MEM_MB); 0 = no budget
+	memChecks   uint64
+	memHit      bool
 	Replaying   bool   `json:"replaying"`
 	replayData  []byte `json:"-"`
 }
@@ -91,6 +95,10 @@ func New(id, level string) *Result {
 	}
 	if dl > 0 {
 		r.deadline = r.start.Add(time.Duration(dl * float64(time.Second)))
+	}
+	if s := os.Getenv("VERIF_MEM_MB"); s != "" {
+		mb, _ := strconv.ParseUint(s, 10, 64)
+		r.memBudget = mb << 20
 	}
 	if p := os.Getenv("VERIF_REPLAY"); p != "" {
 		b, err := os.ReadFile(p)
@@ -136,12 +144,46 @@ func (r *Result) ReplayInto(v any) bool {
 // Expired reports whether the internal deadline has passed; the first time it
 // does, the run is marked non-exhaustive.
 func (r *Result) Expired() bool {
+	if r.overMemory() {
+		return true
+	}
 	if r.deadline.IsZero() || time.Now().Before(r.deadline) {
 		return false
 	}
 	r.mu.Lock()
 	r.Exhaustive = false
 	r.Info["deadline_hit"] = true
+	r.mu.Unlock()
+	return true
+}
+
+// overMemory reports whether the process heap has passed its budget (checked on a
+// fraction of the calls: ReadMemStats stops the world). Like the deadline it ends the
+// enumeration early with exhaustive:false -- never an alarm, never a crash of the check.
+func (r *Result) overMemory() bool {
+	if r.memBudget == 0 {
+		return false
+	}
+	r.mu.Lock()
+	hit := r.memHit
+	r.memChecks++
+	n := r.memChecks
+	r.mu.Unlock()
+	if hit {
+		return true
+	}
+	if n%64 != 1 {
+		return false
+	}
+	var ms runtime.MemStats
+	runtime.ReadMemStats(&ms)
+	if ms.HeapAlloc < r.memBudget {
+		return false
+	}
+	r.mu.Lock()
+	r.memHit = true
+	r.Exhaustive = false
+	r.Info["memory_budget_hit_mb"] = r.memBudget >> 20
 	r.mu.Unlock()
 	return true
 }
